@@ -273,3 +273,17 @@ def special_crcs(repo="/repo"):
     d = source_dictionary(repo)
     new = [v for v in d.get("new_ints", []) if v < (1 << 24)]
     return list(dict.fromkeys(new + base))
+
+
+def big_cases(r):
+    """(total, frame bytes): valid frames at the head of slices of 2^31 .. 2^33 bytes (zero filled), with totals
+    whose value modulo 2^31 / 2^32 is smaller than the frame: lengths that do not survive a cast to a 32-bit type"""
+    out = []
+    for L in (0, 19, 1023):
+        f = mk_frame(payload_for(r, L, r.choice(SUPPORTED)))
+        for base in (1 << 31, 1 << 32, 1 << 33):
+            for d in (0, 3, len(f) - 1, len(f), len(f) + 1):
+                out.append((base + d, f))
+        out.append(((1 << 32) - 1, f))
+        out.append(((1 << 24) + 2, f))
+    return out
